@@ -130,6 +130,25 @@ pub fn shadow_zoo(ctx: &Ctx, rng: &mut impl RngCore, nrand: usize) -> Vec<SE> {
                 }
             }
         }
+        // ... and the argument of the encoder's inverse square root equal to such a constant (a fourth root
+        // of target/argument exists for one element in four: walk the zoo until one is found)
+        let targets: Vec<crate::model::B> = crate::eng::intermediate_targets(&c.f.p).into_iter().take(8).collect();
+        for t in &targets {
+            for tv in [Some(t.clone()), c.f.inv(t)].into_iter().flatten() {
+                let mut found = 0;
+                for m in &picks {
+                    if let Some(l) = crate::eng::lambda_for_encoder_radicand(c, &m.pt, &tv) {
+                        let mut s = present(c, m, Some(&l));
+                        s.class = "rescaled-encoder-radicand-is-constant";
+                        out.push(s);
+                        found += 1;
+                        if found == 2 {
+                            break;
+                        }
+                    }
+                }
+            }
+        }
     }
     out
 }
